@@ -48,8 +48,10 @@ func setPropsFromMapRecursive(val reflect.Value, updates map[string]any) (staged
 			field := typ.Field(i)
 			fieldVal := val.Field(i)
 
-			jsonTag, _ := field.Tag.Lookup("json")
-			if jsonTag != key {
+			// Only exported fields that carry a json name are settings. Without this check an empty key matched the
+			// untagged internals of a property, and reflection panicked on the unexported field.
+			jsonTag, ok := field.Tag.Lookup("json")
+			if !ok || jsonTag == "" || !field.IsExported() || jsonTag != key {
 				continue
 			}
 
